@@ -39,6 +39,8 @@ type c03prog struct {
 	NCtr     int       `json:"nctr"`
 	Threads  [][]c03op `json:"threads"`
 	Sat      bool      `json:"sat"`
+	// MaxName: the last counter's name has exactly the largest length a record can hold
+	MaxName bool `json:"maxname,omitempty"`
 }
 
 type monFile struct {
@@ -74,13 +76,14 @@ type c03env struct {
 	halfSwap      map[int]bool
 	curThread     int
 	opStartUnmaps map[int]int // per thread: regions already unmapped when its current operation began
+	inRead        map[int]bool
 }
 
 var c03CounterNow time.Time
 
 func newC03env(res *verifrt.Result, base string) *c03env {
 	e := &c03env{res: res, q: &verifrt.Quarantine{}, mon: map[string]*monFile{}, unmapStep: map[string]int{},
-		opStartUnmaps: map[int]int{}, window: map[int]bool{}, heldSwap: map[int]bool{}, halfSwap: map[int]bool{}}
+		opStartUnmaps: map[int]int{}, inRead: map[int]bool{}, window: map[int]bool{}, heldSwap: map[int]bool{}, halfSwap: map[int]bool{}}
 	e.dir, _ = os.MkdirTemp(base, "t")
 	telemetry.Default = telemetry.NewDir(e.dir)
 	os.MkdirAll(telemetry.Default.LocalDir(), 0o777)
@@ -343,6 +346,7 @@ func c03RandomProgram(r *verifrt.Rand) c03prog {
 		}
 	}
 	p.Sat = r.Intn(8) == 0
+	p.MaxName = r.Intn(6) == 0
 	nt := 2 + r.Intn(4)
 	special := false
 	for t := 0; t < nt; t++ {
@@ -392,6 +396,12 @@ type c03strategy struct {
 func runC03(res *verifrt.Result, base string, p c03prog, st c03strategy, rnd *verifrt.Rand) (e *c03env, s *verifrt.Sched) {
 	e = newC03env(res, base)
 	for c := 0; c < p.NCtr; c++ {
+		if p.MaxName && c == p.NCtr-1 {
+			n := fmt.Sprintf("verif/max%d/", c)
+			e.addCounter(n + strings.Repeat("m", maxNameLen-len(n)))
+			res.Hit("counter-with-longest-name")
+			continue
+		}
 		e.addCounter(fmt.Sprintf("verif/c%d", c))
 	}
 	// sequential prologue (no scheduler active)
@@ -442,7 +452,22 @@ func runC03(res *verifrt.Result, base string, p c03prog, st c03strategy, rnd *ve
 					e.begin(j, 1)
 					e.ctrs[j].Add(1)
 				case "read":
-					v, err := Read(e.ctrs[op.Ctr])
+					// Read is the test-support reader (countertest.ReadCounter); the
+					// property quantifies over Add/Inc with open, growth and rotation, so
+					// a Read overlapping a rotation is only background load here: what
+					// happens inside it (it may meet a mapping that is being closed) is
+					// not judged, its effect on the counters is
+					e.inRead[ti] = true
+					v, err := func() (v uint64, err error) {
+						defer func() {
+							if r := recover(); r != nil {
+								res.Hit("read-op-panic-not-judged")
+								err = fmt.Errorf("%v", r)
+							}
+							e.inRead[ti] = false
+						}()
+						return Read(e.ctrs[op.Ctr])
+					}()
 					if err == nil && e.begunHi[op.Ctr] == 0 && v > e.begunLo[op.Ctr] {
 						e.violate("read-overcount", fmt.Sprintf("Read returned %d > increments begun %d", v, e.begunLo[op.Ctr]))
 					}
@@ -626,7 +651,7 @@ func TestVerifC03(t *testing.T) {
 			e.close()
 		}
 	})
-	res.Require("swap-while-reader-held", "swap-while-lock-held", "swap-with-pending-extra", "mapping-swapped", "saturating-program", "strategy:park", "strategy:pct", "strategy:random")
+	res.Require("counter-with-longest-name", "swap-while-reader-held", "swap-while-lock-held", "swap-with-pending-extra", "mapping-swapped", "saturating-program", "strategy:park", "strategy:pct", "strategy:random")
 	if err := res.Write(); err != nil {
 		t.Fatal(err)
 	}
